@@ -56,6 +56,12 @@ func (g *stubGopls) DidChange(ctx context.Context, p *lspp.DidChangeTextDocument
 	return nil
 }
 
+// Symbols is the one request the editor model sends between edits (and cancels).
+func (g *stubGopls) Symbols(ctx context.Context, p *lspp.WorkspaceSymbolParams) ([]lspp.SymbolInformation, error) {
+	g.k.Park("gopls", "symbols", p.Query, nil)
+	return nil, ctx.Err()
+}
+
 func (g *stubGopls) DidClose(ctx context.Context, p *lspp.DidCloseTextDocumentParams) error {
 	g.k.Park("gopls", "didClose", string(p.TextDocument.URI), nil)
 	g.mu.Lock()
@@ -248,6 +254,8 @@ func run(rc *kernel.RunCtx, k *kernel.Kernel) map[string]any {
 	var history []string
 	var fromServer []byte
 	diagnostics := 0
+	nreq := 0
+	var outstanding []string
 
 	send := func(method string, params any) {
 		ioS.Feed(simnet.EncodeFrame(map[string]any{"jsonrpc": "2.0", "method": method, "params": params}))
@@ -315,7 +323,34 @@ func run(rc *kernel.RunCtx, k *kernel.Kernel) map[string]any {
 			if f.JSON["method"] == "textDocument/publishDiagnostics" {
 				diagnostics++
 			}
+			if id, ok := f.JSON["id"].(string); ok && f.JSON["method"] == nil {
+				for i, o := range outstanding {
+					if o == id {
+						outstanding = append(outstanding[:i], outstanding[i+1:]...)
+						break
+					}
+				}
+				k.Count("responses_received", 1)
+			}
 		}
+	}
+	doRequest := func() {
+		nreq++
+		id := fmt.Sprintf("r%d", nreq)
+		outstanding = append(outstanding, id)
+		history = append(history, "request "+id)
+		k.Action("editor: workspace/symbol " + id)
+		ioS.Feed(simnet.EncodeFrame(map[string]any{"jsonrpc": "2.0", "id": id, "method": "workspace/symbol", "params": map[string]any{"query": id}}))
+		k.Count("requests_sent", 1)
+	}
+	doCancel := func() {
+		i := t.Choose(len(outstanding), "cancel-which")
+		id := outstanding[i]
+		outstanding = append(outstanding[:i], outstanding[i+1:]...)
+		history = append(history, "cancel "+id)
+		k.Action("editor: $/cancelRequest " + id)
+		send("$/cancelRequest", map[string]any{"id": id})
+		k.Count("fault_request_cancelled", 1)
 	}
 	quiet := func() bool {
 		ps := k.ParkedList()
@@ -404,6 +439,10 @@ func run(rc *kernel.RunCtx, k *kernel.Kernel) map[string]any {
 					doOpen()
 				case t.Chance(1, 25, "close"):
 					doClose()
+				case t.Chance(1, 6, "request"):
+					doRequest()
+				case len(outstanding) > 0 && t.Chance(1, 3, "cancel"):
+					doCancel()
 				default:
 					doChange()
 				}
